@@ -20,7 +20,7 @@ def path_to_line(lines, l):
     return path
 
 
-def run_tree(rep, pid, cmd, gen_args, module, cfg, describe, replay_in=None, timeout=1800, env_extra=None):
+def run_tree(rep, pid, cmd, gen_args, module, cfg, describe, replay_in=None, timeout=1800, env_extra=None, only_prefix=None):
     wd = vlib.scratch_dir(pid.lower())
     try:
         trace = os.path.join(wd, cmd + ".ndjson")
@@ -40,7 +40,9 @@ def run_tree(rep, pid, cmd, gen_args, module, cfg, describe, replay_in=None, tim
             tags = sorted(set(bad[l]))
             path = path_to_line(lines, l)
             drift = [t for t in tags if t.startswith("drift_")]
-            viol = [t for t in tags if not t.startswith("drift_")]
+            viol = [t for t in tags if not t.startswith("drift_") and (only_prefix is None or t.startswith(only_prefix))]
+            if not drift and not viol:
+                continue
             if drift and not viol:
                 rep.drift.append("%s after %d calls: %s" % (",".join(drift), len(path), describe(path)))
                 continue
